@@ -1,11 +1,228 @@
 import StorageModel.Driver.Common
+import StorageModel.C05.Model
+import StorageModel.C05.Spec
+import StorageModel.C05.SelfW
 /- model driver for C05: `run spec` reads case lines on stdin and prints one output line per case
-   (spec = false: the engine model's output; spec = true: the spec's verdict). -/
+   (spec = false: the engine model's output; spec = true: the spec's verdict).
+   Case and output formats: see /verif/harness/c05.go. -/
 namespace StorageModel.Driver.C05
-open StorageModel.Driver
+open StorageModel StorageModel.Driver StorageModel.C05
 
-def step (_line : String) : String := "not-implemented"
-def specStep (_line : String) : String := "not-implemented"
+abbrev Key := Bytes
+
+def wires (l : List Key) : String := ",".intercalate (l.map Bytes.toWire)
+
+def parseList (s : String) : List Key :=
+  if s.isEmpty then [] else (s.splitOn ",").filterMap Bytes.ofHex
+
+def parseSide (s : String) : Side := if s = "A" then .A else .B
+
+def parseKey (s : String) : Key := (Bytes.ofHex s).getD []
+
+def parseOp (s : String) : Option (Op Key) :=
+  match s.splitOn ":" with
+  | ["c", sd, id] => some (.create (parseSide sd) (parseKey id) (parseKey id).isEmpty none)
+  | ["cl", sd, id, ks] => some (.create (parseSide sd) (parseKey id) (parseKey id).isEmpty (some (parseList ks)))
+  | ["u", sd, id, ks, p] => some (.update (parseSide sd) (parseKey id) (parseList ks) (p != "0"))
+  | ["d", sd, id] => some (.delete (parseSide sd) (parseKey id))
+  | ["al", sd, id, ks] => some (.addLinks (parseSide sd) (parseKey id) (parseList ks))
+  | ["rl", sd, id, ks] => some (.removeLinks (parseSide sd) (parseKey id) (parseList ks))
+  | ["sl", sd, id, ks] => some (.setLinks (parseSide sd) (parseKey id) (parseList ks))
+  | ["a1", sd, id, k] => some (.addLink (parseSide sd) (parseKey id) (parseKey k))
+  | ["r1", sd, id, k] => some (.removeLink (parseSide sd) (parseKey id) (parseKey k))
+  | ["inc", sd, id, k] => some (.incr (parseSide sd) (parseKey id) (parseKey k))
+  | ["dec", sd, id, k] => some (.decr (parseSide sd) (parseKey id) (parseKey k))
+  | ["set", sd, id, k, n] => (n.toInt?).map fun c => .setCount (parseSide sd) (parseKey id) (parseKey k) c
+  | ["gl", sd, id] => some (.getLinks (parseSide sd) (parseKey id))
+  | ["il", sd, id, k] => some (.isLinked (parseSide sd) (parseKey id) (parseKey k))
+  | ["gc", sd, id, k] => some (.getCounts (parseSide sd) (parseKey id) (parseKey k))
+  | _ => none
+
+def optI (o : Option Int) : String :=
+  match o with
+  | some i => toString i
+  | none => "n"
+
+def tf (b : Bool) : String := if b then "t" else "f"
+
+def showRet : Ret Key → String
+  | .unit => "u"
+  | .bool b => tf b
+  | .int i => toString i
+  | .olds a b => optI a ++ "~" ++ optI b
+  | .keys l => "[" ++ wires l ++ "]"
+
+def showErr : Err → String
+  | .missing => "!missing"
+  | .notFound => "!notfound"
+  | .mismatch => "!mismatch"
+  | .exists => "!exists"
+  | .blank => "!blank"
+
+/-- insertion sort by a strict order (rendering only) -/
+def sortBy {α : Type} (lt : α → α → Bool) (l : List α) : List α :=
+  l.foldr (fun x acc =>
+    let rec ins : List α → List α
+      | [] => [x]
+      | y :: ys => if lt y x then y :: ins ys else x :: y :: ys
+    ins acc) []
+
+def sideName : Side → String
+  | .A => "A"
+  | .B => "B"
+
+def rcSorted (m : Map Key Int) : List (Key × Int) := sortBy (fun a b => bytesLt a.1 b.1) m
+
+/-- view of a model state: what the read API would answer for every pool entity, then the dump -/
+def viewModel (s : St Key) (poolA poolB : List Key) : String :=
+  let part (sd : Side) (pool other : List Key) : String :=
+    String.join (pool.map fun id =>
+      let ls := linksOf s (sd, id)
+      let rc := match s.get (sd, id) with
+        | some e => rcSorted e.rc
+        | none => []
+      sideName sd ++ "." ++ Bytes.toWire id ++ "=" ++ tf (exists? s (sd, id)) ++ "/" ++ wires ls ++ "/" ++ wires ls ++ "/"
+        ++ String.join (other.map fun k => tf (ls.contains k)) ++ "/"
+        ++ wires ls ++ "/" ++ wires ls ++ "/" ++ String.join (other.map fun k => tf (ls.contains k)) ++ "/"
+        ++ ",".intercalate (rc.map fun p => Bytes.toWire p.1 ++ ":" ++ toString p.2) ++ "/"
+        ++ wires (rc.map (·.1)).reverse ++ "/"
+        ++ ",".intercalate (other.map fun k => optI (rcOf s (sd, id) k) ++ "~" ++ optI (rcOf s (sd.other, k) id))
+        ++ ";")
+  let ents := sortBy (fun (a b : Ref Key × Ent Key) =>
+      (a.1.1 == .A && b.1.1 == .B) || (a.1.1 == b.1.1 && bytesLt a.1.2 b.1.2)) s
+  let dump := String.join (ents.map fun p =>
+      sideName p.1.1 ++ "." ++ Bytes.toWire p.1.2 ++ "[" ++ wires p.2.links ++ "]["
+        ++ ",".intercalate ((rcSorted p.2.rc).map fun q => Bytes.toWire q.1 ++ ":" ++ toString q.2) ++ "];")
+  part .A poolA poolB ++ part .B poolB poolA ++ "#" ++ dump
+
+/-- run one transaction body on the model, literally: results, partial view on failure -/
+def runTxModel (s : St Key) (ops : List (Op Key)) (poolA poolB : List Key) : St Key × String :=
+  let rec go (cur : St Key) (ops : List (Op Key)) (acc : List String) : St Key × List String × String :=
+    match ops with
+    | [] => (cur, acc.reverse, "")
+    | op :: rest =>
+      let o := step cur op
+      match o.err with
+      | some e => (s, ((showRet o.ret ++ showErr e) :: acc).reverse, viewModel o.st poolA poolB)
+      | none => go o.st rest (showRet o.ret :: acc)
+  let r := go s ops []
+  (r.1, ";".intercalate r.2.1 ++ "|" ++ r.2.2 ++ "|" ++ viewModel r.1 poolA poolB)
+
+def parseTx (t : String) : List (Op Key) := (t.splitOn ";").filterMap parseOp
+
+/-! ### the self-referential wiring (`S` cases): C05/SelfW.lean.  The spec is the same executable
+    definition (proved symmetric / exact / clean-after-delete in Properties/C05.lean) printed in the
+    spec's normalised form (a failing call only fails, partial states are not described) -/
+
+namespace SelfDrv
+open StorageModel.C05.SelfW
+
+def parseOp (s : String) : Option (SOp Key) :=
+  match s.splitOn ":" with
+  | ["c", id] => some (.create (parseKey id) (parseKey id).isEmpty none)
+  | ["cl", id, ks] => some (.create (parseKey id) (parseKey id).isEmpty (some (parseList ks)))
+  | ["d", id] => some (.delete (parseKey id))
+  | ["al", id, ks] => some (.addLinks (parseKey id) (parseList ks))
+  | ["rl", id, ks] => some (.removeLinks (parseKey id) (parseList ks))
+  | ["sl", id, ks] => some (.setLinks (parseKey id) (parseList ks))
+  | ["a1", id, k] => some (.addLink (parseKey id) (parseKey k))
+  | ["r1", id, k] => some (.removeLink (parseKey id) (parseKey k))
+  | ["gl", id] => some (.getLinks (parseKey id))
+  | _ => none
+
+def view (s : St Key) (pool : List Key) : String :=
+  let part := String.join (pool.map fun id =>
+    let ls := L s id
+    Bytes.toWire id ++ "=" ++ tf (exists? s (R id)) ++ "/" ++ wires ls ++ "/"
+      ++ String.join (pool.map fun k => tf (ls.contains k)) ++ ";")
+  let ents := sortBy (fun (a b : Ref Key × Ent Key) => bytesLt a.1.2 b.1.2) s
+  part ++ "#" ++ String.join (ents.map fun p => Bytes.toWire p.1.2 ++ "[" ++ wires p.2.links ++ "];")
+
+def runTx (spec : Bool) (s : St Key) (ops : List (SOp Key)) (pool : List Key) : St Key × String :=
+  let rec go (cur : St Key) (ops : List (SOp Key)) (acc : List String) : St Key × List String × String :=
+    match ops with
+    | [] => (cur, acc.reverse, "")
+    | op :: rest =>
+      let o := sstepW cur op
+      match o.err with
+      | some e =>
+        if spec then (s, ("!" :: acc).reverse, "*")
+        else (s, ((showRet o.ret ++ showErr e) :: acc).reverse, view o.st pool)
+      | none => go o.st rest (showRet o.ret :: acc)
+  let r := go s ops []
+  (r.1, ";".intercalate r.2.1 ++ "|" ++ r.2.2 ++ "|" ++ view r.1 pool)
+
+def stepLine (spec : Bool) (pa : String) (txs : List String) : String :=
+  let pool := parseList pa
+  let r := txs.foldl (fun (acc : St Key × List String) t =>
+    let o := runTx spec acc.1 ((t.splitOn ";").filterMap parseOp) pool
+    (o.1, acc.2 ++ [o.2])) (([] : St Key), [])
+  " ".intercalate r.2
+
+end SelfDrv
+
+def step (line : String) : String :=
+  match splitSp line with
+  | "S" :: pa :: txs => SelfDrv.stepLine false pa txs
+  | _kind :: pa :: pb :: txs =>
+    let poolA := parseList pa
+    let poolB := parseList pb
+    let r := txs.foldl (fun (acc : St Key × List String) t =>
+      let o := runTxModel acc.1 (parseTx t) poolA poolB
+      (o.1, acc.2 ++ [o.2])) (([] : St Key), [])
+    " ".intercalate r.2
+  | _ => "bad-case"
+
+/-! ### spec -/
+
+open Spec in
+def viewSpec (s : SSt Key) (poolA poolB : List Key) : String :=
+  let part (sd : Side) (pool other : List Key) : String :=
+    String.join (pool.map fun id =>
+      let ls := partners s sd id
+      let rc := sortBy (fun (a b : Key × Int) => bytesLt a.1 b.1)
+        ((s.cnt.filter fun e => mentions sd id e.1).map fun e => ((match sd with | .A => e.1.2 | .B => e.1.1), e.2))
+      sideName sd ++ "." ++ Bytes.toWire id ++ "=" ++ tf (has s (sd, id)) ++ "/" ++ wires ls ++ "/" ++ wires ls ++ "/"
+        ++ String.join (other.map fun k => tf (linked s sd id k)) ++ "/"
+        ++ wires ls ++ "/" ++ wires ls ++ "/" ++ String.join (other.map fun k => tf (linked s sd id k)) ++ "/"
+        ++ ",".intercalate (rc.map fun p => Bytes.toWire p.1 ++ ":" ++ toString p.2) ++ "/"
+        ++ wires (rc.map (·.1)).reverse ++ "/"
+        ++ ",".intercalate (other.map fun k => optI (count s sd id k) ++ "~" ++ optI (count s sd id k))
+        ++ ";")
+  let ents := sortBy (fun (a b : Ref Key) =>
+      (a.1 == .A && b.1 == .B) || (a.1 == b.1 && bytesLt a.2 b.2)) s.ents
+  let dump := String.join (ents.map fun r =>
+      let rc := sortBy (fun (a b : Key × Int) => bytesLt a.1 b.1)
+        ((s.cnt.filter fun e => mentions r.1 r.2 e.1).map fun e => ((match r.1 with | .A => e.1.2 | .B => e.1.1), e.2))
+      sideName r.1 ++ "." ++ Bytes.toWire r.2 ++ "[" ++ wires (partners s r.1 r.2) ++ "]["
+        ++ ",".intercalate (rc.map fun q => Bytes.toWire q.1 ++ ":" ++ toString q.2) ++ "];")
+  part .A poolA poolB ++ part .B poolB poolA ++ "#" ++ dump
+
+/-- the spec has no opinion on return values of failing calls (`!`) nor on uncommitted partial
+    states (`*`); the check normalises the implementation's line accordingly -/
+def runTxSpec (s : Spec.SSt Key) (ops : List (Op Key)) (poolA poolB : List Key) : Spec.SSt Key × String :=
+  let rec go (cur : Spec.SSt Key) (ops : List (Op Key)) (acc : List String) : Spec.SSt Key × List String × String :=
+    match ops with
+    | [] => (cur, acc.reverse, "")
+    | op :: rest =>
+      match Spec.sstep cur op with
+      | none => (s, ("!" :: acc).reverse, "*")
+      | some (s', ret) => go s' rest (showRet ret :: acc)
+  let r := go s ops []
+  (r.1, ";".intercalate r.2.1 ++ "|" ++ r.2.2 ++ "|" ++ viewSpec r.1 poolA poolB)
+
+def specStep (line : String) : String :=
+  match splitSp line with
+  | "X" :: _ => "outside-vocabulary"
+  | "S" :: pa :: txs => SelfDrv.stepLine true pa txs
+  | _kind :: pa :: pb :: txs =>
+    let poolA := parseList pa
+    let poolB := parseList pb
+    let r := txs.foldl (fun (acc : Spec.SSt Key × List String) t =>
+      let o := runTxSpec acc.1 (parseTx t) poolA poolB
+      (o.1, acc.2 ++ [o.2])) (({} : Spec.SSt Key), [])
+    " ".intercalate r.2
+  | _ => "bad-case"
 
 def run (spec : Bool) : IO Unit := forEachLine (if spec then specStep else step)
 
